@@ -53,13 +53,13 @@ SIG_AGE2 = SIG_MULTI
 SIG_PREVJUNK = 'C11 / previous-node count / received type-6 block whose data does not dissect stays next to the new one'
 SIG_AGEJUNK = 'C11 / bundle-age count / received type-7 block whose data does not dissect stays next to the new one'
 SIG_AGENEG = 'C11 / bundle-age value / creation time ahead of the local clock (age encoded as a negative integer)'
-SIG_PAYPOS = 'C11 / payload position / received payload block not last or not numbered 1 is forwarded as it came'
+SIG_HOP_STALE = 'C11 / forwarded hop count unchanged on the wire'
 SIG_STICKY = 'C11 / block number of added previous-node/age block sticks across bundles (class-level overloaded_fields)'
 # Genuine deviations of the current tree found by this check's oracle, shown to the coordinator with their
 # witnesses (harness/corpus/C11_*.json), awaiting a decision (fix: commit or known_findings.json).  While a
 # signature is listed here and not in known_findings.json the failure is printed as PENDING-FINDING and does not
 # fail the run; once listed there it goes through chk.fail() and prints KNOWN-FINDING.
-PENDING_FINDINGS = [SIG_TIME0, SIG_LIFE0, SIG_EID, SIG_EID_ADMIN, SIG_PREVJUNK, SIG_AGEJUNK, SIG_AGENEG, SIG_PAYPOS]
+PENDING_FINDINGS = [SIG_TIME0, SIG_LIFE0, SIG_EID, SIG_EID_ADMIN, SIG_PREVJUNK, SIG_AGEJUNK, SIG_AGENEG]
 
 NODES = ['dtn://me/', 'dtn://node-7/', 'ipn:9.0', 'ipn:4.1', 'dtn://n/svc']
 NODE_UNSTABLE = 'dtn://me'                      # the text conversion turns it into dtn://me/
@@ -330,12 +330,12 @@ def node_text(node):
 # ---------------------------------------------------------------------------------------------- model side
 
 def coq_octets(data):
-    ''' Octet string as a Coq term; long strings in 24-octet pieces ([unhex] divides an N repeatedly, which is
-    cubic in the length for one big literal). '''
+    ''' Octet string as a plain Coq list literal: nothing to compute when the case is evaluated ([unhex] of one
+    big literal divides an N repeatedly - cubic in the length - and costs more than the model itself). '''
     data = bytes(data)
-    if len(data) <= 24:
-        return coq_bytes(data)
-    return '(' + ' ++ '.join(coq_bytes(data[pos:pos + 24]) for pos in range(0, len(data), 24)) + ')'
+    if not data:
+        return '(@nil N)'
+    return '[' + '; '.join(str(octet) for octet in data) + ']'
 
 
 def coq_case(case):
@@ -541,7 +541,8 @@ def oracle(case, idx, ent):
         got = tx_hops.get(blk['num'])
         got_item = _loads_one(got['data']) if got else None
         if got_item is None or got_item[0] != [limit, count + 1]:
-            add('hop count', 'block %d received [%d, %d] transmitted %r' % (blk['num'], limit, count, got_item and got_item[0]))
+            add('hop count', 'block %d received [%d, %d] transmitted %r' % (blk['num'], limit, count, got_item and got_item[0]),
+                SIG_HOP_STALE if (got_item and got_item[0] == [limit, count]) else None)
         elif (got['flags'], got['crc_type']) != (blk['flags'], blk['crc_type']):
             add('hop count', 'block %d flags/CRC type changed' % blk['num'])
     # --- bundle age
@@ -565,9 +566,12 @@ def oracle(case, idx, ent):
     nums = [blk['num'] for blk in blocks]
     if len(set(nums)) != len(nums):
         add('block numbers', 'not unique: %r' % nums)
-    if not blocks or blocks[-1]['type'] != 1 or blocks[-1]['num'] != 1:
-        add('payload position', 'last block is type %r number %r' % (blocks[-1]['type'] if blocks else None, blocks[-1]['num'] if blocks else None),
-            SIG_PAYPOS if 'paypos' in cls else None)
+    if 'paypos' in cls:
+        # the received bundle itself breaks RFC 9171 4.1 / 4.3.3 (payload block not last / not numbered 1 / not
+        # exactly one): the property promises nothing about its position on the way out (the model says: kept)
+        pass
+    elif not blocks or blocks[-1]['type'] != 1 or blocks[-1]['num'] != 1:
+        add('payload position', 'last block is type %r number %r' % (blocks[-1]['type'] if blocks else None, blocks[-1]['num'] if blocks else None))
     # --- CRCs
     if not dec['crc_ok']:
         add('crc', 'invalid CRC on the wire: primary %s blocks %r' % (pri['crc_ok'], [(blk['num'], blk['crc_ok']) for blk in blocks]))
@@ -602,7 +606,7 @@ def evaluate(chk, cases, pending, count=True, label='gen'):
     impl = [run_impl(case) for case in cases]
     try:
         model = chk.coq_eval('fwd_' + label, ['Lib.Cbor', 'Model.Bundle', 'Model.BpFwd'], [coq_case(case) for case in cases],
-                             'BpFwd.run_case', chunk=40)
+                             'BpFwd.run_case', chunk=max(40, (len(cases) + 7) // 8))
     except CoqError as err:
         model = None
         model_err = str(err)[:600]
@@ -614,10 +618,10 @@ def evaluate(chk, cases, pending, count=True, label='gen'):
         got = canon_model(model[cidx]) if model is not None else None
         agree = (got == want)
         if model is None:
-            disagree.append(dict(case=strip_case(case), why='model evaluation failed: ' + model_err))
+            disagree.append(dict(index=cidx, case=strip_case(case), why='model evaluation failed: ' + model_err))
         elif not agree:
             first = next((k for k in range(len(want)) if k >= len(got) or got[k] != want[k]), 0)
-            disagree.append(dict(case=strip_case(case), input=first, impl=want[first], model=(got[first] if first < len(got) else None),
+            disagree.append(dict(index=cidx, case=strip_case(case), input=first, impl=want[first], model=(got[first] if first < len(got) else None),
                                  stage=obs[first]['stage'], actions=obs[first]['actions']))
         for (idx, ent) in enumerate(obs):
             item = case['hist'][idx]
@@ -716,28 +720,31 @@ def main():
 
     props_ok = chk.coq_props()
 
-    # corpus first (witnesses of the pending / known findings), then directed, then random
+    # corpus first (witnesses of the pending / known / fixed findings), then directed, then random; evaluated as
+    # one batch (one wave of parallel coqc shards)
     corpus = load_corpus()
     corpus_cases = [ent['replay']['case'] for (_name, ent) in corpus if ent.get('replay', {}).get('kind') == 'case']
-    (dis_c, _f) = evaluate(chk, corpus_cases, pending, label='corpus') if corpus_cases else ([], 0)
+    directed = directed_cases()
+    count = 400 if chk.quick() else 20000
+    cases = [gen_case(chk.rng) for _ in range(count)]
+    everything = corpus_cases + directed + cases
+    all_dis = []
+    for start in range(0, len(everything), 4000):
+        (dis, _f) = evaluate(chk, everything[start:start + 4000], pending, label='b%d' % (start // 4000))
+        for ent in dis:
+            ent['index'] += start
+        all_dis.extend(dis)
+    dis_c = [ent for ent in all_dis if ent['index'] < len(corpus_cases)]
+    dis_d = [ent for ent in all_dis if len(corpus_cases) <= ent['index'] < len(corpus_cases) + len(directed)]
+    disagree = [ent for ent in all_dis if ent['index'] >= len(corpus_cases) + len(directed)]
     chk.obligation('correspondence:corpus', not dis_c, json.dumps(dis_c[:1])[:600])
+    chk.obligation('correspondence:directed', not dis_d, json.dumps(dis_d[:1])[:600])
     # every corpus witness must still show its finding (or the finding has disappeared: say so)
     for (name, ent) in corpus:
         sig = ent.get('signature')
         if sig in PENDING_FINDINGS and sig not in pending and chk.known_match(sig) is None and sig not in chk.known_hits:
             print('NOTE: corpus witness %s no longer shows "%s"' % (name, sig))
-
-    directed = directed_cases()
-    (dis_d, _f) = evaluate(chk, directed, pending, label='directed')
-    chk.obligation('correspondence:directed', not dis_d, json.dumps(dis_d[:1])[:600])
-
-    count = 400 if chk.quick() else 20000
-    cases = [gen_case(chk.rng) for _ in range(count)]
-    disagree = []
-    for start in range(0, len(cases), 2000):
-        (dis, _f) = evaluate(chk, cases[start:start + 2000], pending, label='gen%d' % (start // 2000))
-        disagree.extend(dis)
-    if (disagree or not props_ok) and not chk.violations:
+    if (all_dis or not props_ok) and not chk.violations:
         # broken tie: search harder for a concrete failing input (10x budget) before giving up
         extra = [gen_case(chk.rng) for _ in range(count * (10 if chk.quick() else 2))]
         for start in range(0, len(extra), 2000):
@@ -746,11 +753,11 @@ def main():
                 break
     chk.obligation('correspondence:generated', not disagree,
                    ('%d of %d cases differ; first: ' % (len(disagree), len(cases)) + json.dumps(disagree[:1])[:900]) if disagree else '')
-    if disagree:
+    if all_dis:
         path = os.path.join(VERIF, 'build', 'replay', 'C11_disagreement.json')
         with open(path, 'w') as out:
             json.dump(dict(property='C11', signature='correspondence', what='model and implementation differ',
-                           replay=dict(kind='case', case=disagree[0]['case']), detail=disagree[:5]), out, indent=1)
+                           replay=dict(kind='case', case=all_dis[0]['case']), detail=all_dis[:5]), out, indent=1)
 
     for (sig, (what, path)) in sorted(pending.items()):
         print('PENDING-FINDING: property=C11 %s -- %s (witness %s)' % (sig, what[:300], path))
